@@ -945,7 +945,7 @@ CONFIG["C13"] = dict(
 
 CONFIG["C12"] = dict(
     modules=["Mdns.Props.C12"],
-    model_files="Mdns/Model/Sched.lean, Mdns/Model/Client.lean",
+    model_files="Mdns/Model/Sched.lean, Mdns/Model/Client.lean, Mdns/Model/Responder.lean",
     nontrivial=_sim_nontrivial,
     extra_evidence=_sim_extra,
     rule="(a) responder-free histories as in C19/C13: the model's requested wake-up is compared with the real daemon's at "
@@ -968,14 +968,22 @@ CONFIG["C12"] = dict(
                "input (timersCover_iter), holds after every history from the fresh daemon (timersCover_always), hence "
                "wake_never_late(_run): the requested wake-up is no later than any due work after the last iteration; "
                "expiry_after_last, old_timers_popped; hfound_on_time (an iteration not later than the requested wake-up reports no "
-               "address whose record ran out before now).",
+               "address whose record ran out before now). On the RESPONDER model (Responder.iter, whose wake-up is compared with the "
+               "real daemon's at every iteration of every responder history): the invariant RTimersCover - the next_send of EVERY "
+               "probe in every interface registry (however it got there: registration, re-registration, joining record, lost "
+               "tiebreak, conflict rename / update_hostname, wake-up of a waiting service), every queued RegisterResend / "
+               "UnregisterResend (goodbye repeat per interface AND family: goodbye_repeat_armed) and the interface check is a timer, "
+               "and no registry keeps un-armed new_timers - holds for the fresh daemon, is preserved by iter for EVERY input with no "
+               "side condition (rTimersCover_iter), hence responder_wake_never_late after every history; the full statement holds "
+               "of the model (no witness against it).",
     level_note="Trusted: Lean kernel; allowed axioms only; simulation seams (the gate replaces the blocking poll, so the 1 ms "
                "floor of the real poll time-out is not exercised). The two-scheduler comparison is an oracle on the real "
-               "code, not a theorem; probe steps, announcement repeats, refreshes, expiries and verify deadlines are covered "
-               "by it, not yet by the model.",
-    partial=["probing / announcement timers of the responder side are not in the client model (two-scheduler oracle and the "
-             "responder model's own theorems); a no-spin bound for the client model (refresh marks being caught up on a late "
-             "iteration) is not proved, the scheduler-fragment statements are"],
+               "code, not a theorem; it covers histories that mix client and responder work in one daemon, which no single "
+               "model fragment does (the client and the responder invariants are proved per fragment).",
+    partial=["there is no single daemon model: TimersCover (client fragment) and RTimersCover (responder fragment) are proved "
+             "separately, a daemon that browses and registers at once is covered by the two-scheduler oracle only; a no-spin "
+             "bound for the client model (refresh marks being caught up on a late iteration) is not proved, the "
+             "scheduler-fragment statements are"],
     assumptions=["one `now` per loop iteration", "hash-order dependent tie-breaks may make the two executions diverge; packet content is compared canonically (sorted, without TTLs)"],
 )
 
